@@ -186,3 +186,8 @@ func Opt(name string, t TypeExpr) Field { return Field{Name: name, Type: t, Opti
 func Def(name string, t TypeExpr, lit string) Field {
 	return Field{Name: name, Type: t, Default: &lit}
 }
+
+// OptDef is a field that is declared optional and has a default.
+func OptDef(name string, t TypeExpr, lit string) Field {
+	return Field{Name: name, Type: t, Optional: true, Default: &lit}
+}
